@@ -141,4 +141,15 @@ def replay (param : Bool) (faults : Faults) (s : SState) : List (Nat Ã— Label) â
       | none => .error k
     else .error k
 
+/-! ### the fan-out of `RasterFuse.process` as the machine assumes it -/
+
+/-- what the caller does with the jobs: every block is submitted before any result is awaited, every job is awaited
+    (in completion order), and a job's exception is re-raised in the caller by `future.result()`; with one thread the blocks
+    are processed in order in the calling thread -/
+inductive FanOp | submitEvery | awaitEveryCompleted | reraise | sequentialWhenOneThread deriving Repr, DecidableEq
+
+/-- the assumptions `init` (all jobs queued), `runSched` (every job runs to its end, whatever happened to the others) and
+    `outcome` (raised iff some job failed) encode -/
+def fanOutModel : List FanOp := [.sequentialWhenOneThread, .submitEvery, .awaitEveryCompleted, .reraise]
+
 end Homonim
